@@ -1,4 +1,5 @@
 CONSTANTS Depth = 3
+          RootPats = "var"
           Mode = "emit"
 SPECIFICATION Spec
 INVARIANT Emit
